@@ -99,7 +99,19 @@ FixedSweeps ==
   \o Cross2(<< "ReadInteger", "NewInteger" >>, Range(1, 8), LAMBDA fn, sz :
         [op |-> "Sweep", fn |-> fn, size |-> sz, in |-> Rnd(Seed, 12, sz), cls |-> "fixed"])
 
-Vecs == EncRanges \o EncInts \o DecChunkVecs \o DecInts \o IntFromBytesVecs \o ReadInts \o FixedVecs
+\* results the caller keeps (and appends to) while neighbouring values are encoded: one- and two-byte integers next to each other in both
+\* orders, strings, dates
+ChainInt(fn, sz, vals, cls) == [op |-> "Chain", fn |-> fn, kind |-> "int", items |-> SeqMap(LAMBDA v : [fn |-> fn, value |-> v, size |-> sz], vals), cls |-> cls]
+ChainVecs ==
+  Cross2(<< "NewIntegerFromInt", "EncodeIntN" >>, << 1, 2, 4, 8 >>, LAMBDA fn, sz :
+     ChainInt(fn, sz, << 5, 6, 7, 4, 0, 1, 255, 254, 5, 6, 127, 128, 129, 2, 3 >>, "neighbours"))
+  \o Cross2(<< "NewIntegerFromInt", "EncodeIntN" >>, << 2, 3 >>, LAMBDA fn, sz : ChainInt(fn, sz, << 256, 257, 255, 65535, 65534, 0, 1 >>, "neighbours"))
+  \o << [op |-> "Chain", fn |-> "I2PString", kind |-> "string", cls |-> "strings",
+          items |-> << [fn |-> "ToI2PString", in |-> << 97 >>], [fn |-> "ToI2PString", in |-> << 97, 98 >>], [fn |-> "NewI2PString", in |-> << >>],
+                       [fn |-> "NewI2PString", in |-> Fill(255, 3)], [fn |-> "ToI2PString", in |-> << 98 >>], [fn |-> "NewI2PString", in |-> << 97 >>] >>],
+        [op |-> "Chain", fn |-> "Date", kind |-> "date", cls |-> "dates",
+          items |-> << [ms |-> << 0, 0, 0, 0, 0, 0, 0, 1 >>], [ms |-> << 0, 0, 1, 138, 207, 146, 32, 0 >>], [ms |-> << 0, 0, 0, 0, 0, 0, 0, 2 >>], [ms |-> Zeros(8)] >>] >>
+Vecs == ChainVecs \o EncRanges \o EncInts \o DecChunkVecs \o DecInts \o IntFromBytesVecs \o ReadInts \o FixedVecs
         \o DateVecs \o NewStrs \o StrSweeps \o StrGets \o StrFromBytesVecs \o FixedSweeps
 
 VARIABLE done
